@@ -23,6 +23,8 @@ mod vecdist;
 mod vecsearch;
 mod funcs;
 mod fuzz;
+mod optree;
+mod spill;
 
 fn main() {
     let args: Vec<String> = std::env::args().collect();
@@ -62,6 +64,7 @@ fn main() {
         "funcs-run" => funcs::funcs_run(rest),
         "fuzz-worker" => fuzz::worker(rest),
         "fuzz-one" => fuzz::one(rest),
+        "optree-replay" => optree::replay(rest),
         "ffi-replay" => ffi::replay(rest),
         "vecdist-replay" => vecdist::replay(rest),
         "vecdist-record" => vecdist::record(rest),
@@ -73,6 +76,7 @@ fn main() {
         "sidecar-proc" => sidecar::proc_main(rest),
         "sidecar-orch" => sidecar::orch(rest),
         "sidecar-stress" => sidecar::stress(rest),
+        "spill-replay" => spill::replay(rest),
         other => {
             eprintln!("unknown subcommand {other}");
             2
